@@ -21,6 +21,7 @@ package sleep
 
 import (
 	"encoding/json"
+	"errors"
 	"fmt"
 	"os"
 	"path/filepath"
@@ -86,6 +87,7 @@ type zzvSlAct struct {
 	Res     string  `json:"res"`
 	Cbs     []zzvCb `json:"cbs"`
 	Handoff string  `json:"handoff"`
+	Fail    bool    `json:"fail"` // PollWait: the OnPoll callback returns an error
 }
 
 type zzvSlStep struct {
@@ -110,16 +112,17 @@ type zzvPollAct struct {
 }
 
 type zzvSlRig struct {
-	t     *testing.T
-	m     *Manager
-	dir   string
-	polls []*zzvPollAct
-	byGid sync.Map // goroutine id -> *zzvPollAct
-	cbMu  sync.Mutex
-	cbs   []zzvCb
-	free  atomic.Bool // teardown: nothing is held any more
-	npoll int         // number of poll slots of the model
-	cfg   config.SleepConfig
+	t        *testing.T
+	m        *Manager
+	dir      string
+	polls    []*zzvPollAct
+	byGid    sync.Map // goroutine id -> *zzvPollAct
+	cbMu     sync.Mutex
+	cbs      []zzvCb
+	free     atomic.Bool // teardown: nothing is held any more
+	failPoll atomic.Bool // the OnPoll callback released next returns an error
+	npoll    int         // number of poll slots of the model
+	cfg      config.SleepConfig
 	// the Sleep / Wake call that is inside its callback (holds the state lock), and the poll parked on the lock
 	caller     *zzvPollAct
 	callerKind string
@@ -218,6 +221,9 @@ func (r *zzvSlRig) newManager() {
 		OnPoll: func() error {
 			r.record("OnPoll")
 			r.hold("callback")
+			if r.failPoll.Swap(false) {
+				return errors.New("zzv: reconnect failed")
+			}
 			return nil
 		},
 		OnPollEnd: func() error { r.record("OnPollEnd"); return nil },
@@ -513,6 +519,7 @@ func (r *zzvSlRig) apply(a zzvSlAct) (res string, handoff string) {
 			res = "unexpected-point:" + pt // e.g. relock: OnPoll was not invoked but the poll went on
 		}
 	case "PollWait":
+		r.failPoll.Store(a.Fail) // read by the held OnPoll callback when it is released
 		switch pt := r.advance(a); pt {
 		case "relock":
 			res = a.Res // woken / asleep is the AGENT's decision at the end of its poll window (agent-level replay)
